@@ -39,6 +39,7 @@ pub fn scfg(t: &Task) -> SCfg {
         burst: vec![],
         script: vec![],
         latency: 0,
+        ecmp_longer: (0, 0),
         strategy: strat::strategy_config(
             Protocol::Icmp,
             1,
